@@ -138,6 +138,14 @@ func (db *DB) Start(initCheckpoints []recovery.CheckpointHandle) error {
 	db.sstables = latestCP.Levels
 	db.seqNum = latestCP.Levels.LatestSeqNum
 
+	// Continue numbering table files after the tables of the checkpoint so
+	// that the files it references are never overwritten.
+	for level := range latestCP.Levels.DescendLevels() {
+		for t := range level.AllTables() {
+			db.tableWriter.SkipPast(t)
+		}
+	}
+
 	// Start a new writer that doesn't write to a file yet.
 	db.wal = wal.NewWriter(db.fs, latestCP.NextWALID(), db.maxWALSize)
 
